@@ -205,6 +205,24 @@ def oracle_labels(shape, polys):
         ref[s != 0] = lab
     if not np.array_equal(np.asarray(m), ref):
         return [("last-label", "multi-polygon mask is not the overlay in drawing order")]
+    # the same regions under string labels of different lengths (shortest first): every pixel carries the whole label of the last
+    # polygon covering it, the background stays empty
+    from gwcs import selector
+    pool = ["A", "B12", "slit_3", "S1600A1", "x", "region-ten"]
+    names = {lab: pool[i % len(pool)] + ("" if i < len(pool) else str(i)) for i, (lab, _) in enumerate(polys)}
+    if len(set(names.values())) == len(polys):
+        try:
+            ms = selector.LabelMapperArray.from_vertices(shape, {names[lab]: [(x / 8.0, y / 8.0) for x, y in vs] for lab, vs in polys})
+            got = np.asarray(ms.mapper)
+            want = np.full(shape, "", dtype=object)
+            for lab, vs in polys:
+                want[impl_single(shape, vs, rid=1) != 0] = names[lab]
+            if got.shape != tuple(shape) or not all(str(got[i, j]) == want[i, j] for i in range(shape[0]) for j in range(shape[1])):
+                bad_px = next(((i, j) for i in range(shape[0]) for j in range(shape[1]) if str(got[i, j]) != want[i, j]), None)
+                return [("last-label", f"with string labels {list(names.values())} pixel {bad_px} carries {got[bad_px]!r}, not {want[bad_px]!r} "
+                                       f"(mask dtype {got.dtype})")]
+        except Exception as e:  # noqa
+            return [("labels", f"from_vertices with string labels {list(names.values())} raised {type(e).__name__}")]
     return []
 
 
